@@ -1,6 +1,8 @@
 """C04 -- gravity-corrected angles follow the documented construction on every code path."""
 from __future__ import annotations
 
+import itertools
+
 import z3
 
 from vf import kit, units, core
@@ -58,23 +60,30 @@ def run(chk):
 def drop_contract(chk, mod):
     chk.function(MOD, '_drop_due_to_gravity')
     pre = f'{MOD}:_drop_due_to_gravity'
-    for wdt in (F64, F32):
-        mk = lambda: dict(distance=arg('L2', 'length', dtype=F64, origin='fresh'), wavelength=arg('lam', 'length', dtype=wdt),
+    # operand shapes: the function chooses between an in-place and an allocating multiplication by comparing the dims of its operands,
+    # so both branches are reached only with different operand shapes (distance dims, wavelength dims)
+    shapes = {'scalars': ((), ()), 'same dim': (('row',), ('row',)), 'scalar wavelength': (('row',), ()), 'scalar distance': ((), ('row',)),
+              'distance along its own dim': (('own',), ('row',))}
+    branches = set()
+    for (sname, (dd, dw)), wdt in itertools.product(shapes.items(), (F64, F32)):
+        mk = lambda: dict(distance=arg('L2', 'length', dtype=F64, origin='fresh', dims=dd), wavelength=arg('lam', 'length', dtype=wdt, dims=dw),
                           gravity=arg('g', 'accel', dtype=VEC))
         a = mk()
         base = [a['distance'].val > 0, a['wavelength'].val >= 0, norm2(a['gravity'].val) > 0] + kit.CONST_AXIOMS
         paths = chk.explore(lambda: mod._drop_due_to_gravity(**mk()), base=base, catch=CATCH)
         for i, p in enumerate(paths):
-            tag = f'wavelength:{wdt}' + (f'/path{i}' if len(paths) > 1 else '')
+            tag = f'wavelength:{wdt}; {sname}' + (f'/path{i}' if len(paths) > 1 else '')
             if p.kind == 'raise':
                 chk.decided(f'{pre}/no-raise[{tag}]', False, detail=repr(p.value)); continue
             r = p.value
+            branches.add(len(p.writes))
             gN = core.sqrt_term(norm2(a['gravity'].si), nonneg=True)
             L, lam = a['distance'].si, a['wavelength'].si
             chk.prove(f'{pre}/formula[{tag}]', hyps_of(p, base), r.si == gN * M * M * lam * lam * L * L / (2 * H * H), timeout=60)
             chk.prove(f'{pre}/defined[{tag}]', hyps_of(p, base), z3.And(r.buf.defd, z3.Not(r.buf.nan)))
             chk.decided(f'{pre}/unit-of-distance[{tag}]', r.unit == a['distance'].unit, detail=f'{r.unit} vs {a["distance"].unit}')
             chk.decided(f'{pre}/dtype[{tag}]', r.dtype == wdt, detail=str(r.dtype))
+            chk.decided(f'{pre}/result-dims-are-the-union[{tag}]', set(r.dims) == set(dd) | set(dw), detail=str(r.dims))
             bad = [w for w in p.writes if w[1] != 'fresh']
             chk.decided(f'{pre}/frame(wavelength, gravity untouched)[{tag}]', not bad, detail=str(bad))
 
